@@ -47,6 +47,34 @@ def add : Ranges → Nat → Ranges
     | some hd => if hd ≥ h then [r] else if h = hd + 1 then [{ r with hs := r.hs ++ [h] }] else [r, ⟨h, [h]⟩]
   | r :: r' :: rest, h => r :: add (r' :: rest) h
 
+/-- `ranges.Head()`: the head of the last range (none = zero header) -/
+def headOf : Ranges → Option Nat
+  | [] => none
+  | [r] => r.hs.getLast?
+  | _ :: r :: rest => headOf (r :: rest)
+
+/-! `Add` is not atomic with respect to the sync loop's `Remove`: it reads the head of the last range (holding the
+    lock of the range LIST, which `Remove` does not take) and then applies what it decided.  `appendLast` is
+    `headerRange.Append` on the last range; since the F42 repair a range that is empty by then starts anew. -/
+inductive AddPlan | drop | append | fresh
+deriving Repr, DecidableEq
+
+def addRead (rs : Ranges) (h : Nat) : AddPlan :=
+  match headOf rs with
+  | none => .fresh
+  | some hd => if hd ≥ h then .drop else if h = hd + 1 then .append else .fresh
+
+def appendLast (repaired : Bool) : Ranges → Nat → Ranges
+  | [], h => [⟨h, [h]⟩]
+  | [r], h => [if r.hs.isEmpty && repaired then ⟨h, [h]⟩ else { r with hs := r.hs ++ [h] }]
+  | r :: r' :: rest, h => r :: appendLast repaired (r' :: rest) h
+
+def addApply (repaired : Bool) (rs : Ranges) (plan : AddPlan) (h : Nat) : Ranges :=
+  match plan with
+  | .drop => rs
+  | .fresh => rs ++ [⟨h, [h]⟩]
+  | .append => appendLast repaired rs h
+
 /-- `ranges.First()`: drops the leading empty ranges; the result's first element (if any) is what it returns -/
 def clean : Ranges → Ranges
   | [] => []
@@ -59,12 +87,6 @@ def removeFirst : Ranges → Nat → Ranges
 
 /-- `ranges.Prune(height)` -/
 def prune (rs : Ranges) (e : Nat) : Ranges := rs.map (remove · e)
-
-/-- `ranges.Head()`: the head of the last range (none = zero header) -/
-def headOf : Ranges → Option Nat
-  | [] => none
-  | [r] => r.hs.getLast?
-  | _ :: r :: rest => headOf (r :: rest)
 
 /-- all cached heights, in order -/
 def heights (rs : Ranges) : List Nat := rs.flatMap (·.hs)
